@@ -31,6 +31,7 @@ THEOREMS = [
     "c16_returned_value_was_written_by_child", "c16_dead_child_never_answers",
     "c16_eof_is_not_exit", "c16_reuse_sound", "c16_exit_once_leaks_on_reuse", "c16_failed_handshake_cleans_up",
     "c16_drain_translated", "c16_leave_sound_held",
+    "c16_concurrent_no_fabricated_result", "c16_concurrent_clients_independent",
 ]
 RULE = (
     "real children {well-behaved, exits at step k (k=0..4), ignores SIGTERM after signalling readiness, never reads stdin, "
@@ -139,6 +140,46 @@ def hardening_product():
     return out
 
 
+def status_product():
+    """every class of exit status {0, non-zero, killed by the signal} x {reacting to SIGTERM, ending by itself before
+    the exit} x {flooding (reader paused), quiet} x every exit path"""
+    out = []
+    for b in ("flood", "well"):
+        for v in ({}, {"on_term": 0}, {"on_term": 3}, {"self_exit": [0.25, 0]}, {"self_exit": [0.25, 3]}):
+            for p in H.PATHS:
+                out.append(_case(b, p, "before", **v))
+                if b == "well":
+                    out.append(_case(b, p, "after", **v))
+    for k in (0, 1, 2):                                       # early exits with status 0 / non-zero
+        for code in (0, 3):
+            out.append(_case("exit_at", "normal", "after", k=k, code=code))
+    return out
+
+
+def concurrent_product():
+    """two and three StdioClient objects alive at once (same command, the SAME request id on every connection), one
+    child dying with its request pending while another answers; every registration / sending order; both request APIs"""
+    import itertools
+    out = []
+    groups = [[{"behaviour": "exit_at", "k": 1}, {"behaviour": "well"}],
+              [{"behaviour": "well"}, {"behaviour": "well"}],
+              [{"behaviour": "never_reads"}, {"behaviour": "well"}],
+              [{"behaviour": "exit_at", "k": 1}, {"behaviour": "well"}, {"behaviour": "ignore_term"}],
+              [{"behaviour": "exit_at", "k": 0}, {"behaviour": "exit_at", "k": 1}, {"behaviour": "well"}]]
+    for g in groups:
+        idx = list(range(len(g)))
+        orders = list(itertools.permutations(idx))
+        for order in orders:
+            for send in (orders if len(g) == 2 else [tuple(idx), tuple(reversed(idx))]):
+                for api in ("legacy", "send_message"):
+                    if api == "send_message" and (order != orders[0] or send != tuple(idx)):
+                        continue
+                    for p in (H.PATHS if order == orders[-1] else ["normal"]):
+                        out.append({"behaviour": "well", "path": p, "moment": "after", "api": "StdioClient", "nreq": 1,
+                                    "concurrent": g, "order": list(order), "send_order": list(send), "req_api": api})
+    return out
+
+
 def product(apis, nreq=2, junk=True):
     out = []
     for api in apis:
@@ -210,6 +251,24 @@ DIRECTED = [
     _case("well", "normal", "after", api="with_initialize"),
     _case("never_reads", "normal", "before", api="with_initialize"),
     _case("flood", "cancel", "before", api="with_initialize"),
+    # exit status classes: a clean SIGTERM handler (status 0), a failing one, a child that has ended by itself
+    _case("flood", "normal", "before", on_term=0),
+    _case("flood", "timeout", "before", on_term=0),
+    _case("flood", "exception", "before", on_term=3),
+    _case("flood", "normal", "before", self_exit=[0.25, 0]),
+    _case("flood", "cancel", "before", self_exit=[0.25, 3]),
+    _case("well", "cancel", "after", on_term=0),
+    _case("exit_at", "normal", "after", k=2, code=0),
+    # several clients alive at once, the same request id on every connection
+    {"behaviour": "well", "path": "normal", "moment": "after", "api": "StdioClient", "nreq": 1, "req_api": "legacy",
+     "concurrent": [{"behaviour": "exit_at", "k": 1}, {"behaviour": "well"}], "order": [1, 0], "send_order": [0, 1]},
+    {"behaviour": "well", "path": "cancel", "moment": "after", "api": "StdioClient", "nreq": 1, "req_api": "legacy",
+     "concurrent": [{"behaviour": "exit_at", "k": 1}, {"behaviour": "well"}], "order": [0, 1], "send_order": [1, 0]},
+    {"behaviour": "well", "path": "exception", "moment": "after", "api": "StdioClient", "nreq": 1, "req_api": "send_message",
+     "concurrent": [{"behaviour": "never_reads"}, {"behaviour": "well"}], "order": [0, 1], "send_order": [0, 1]},
+    {"behaviour": "well", "path": "timeout", "moment": "after", "api": "StdioClient", "nreq": 1, "req_api": "legacy",
+     "concurrent": [{"behaviour": "exit_at", "k": 1}, {"behaviour": "well"}, {"behaviour": "ignore_term"}],
+     "order": [2, 1, 0], "send_order": [0, 1, 2]},
 ]
 BAD = [{"bad": b, "api": a} for b in ("missing", "not-executable", "directory", "bare-name") for a in H.APIS]
 
@@ -245,17 +304,17 @@ class Scenarios(Suite):
     def cases(self, ctx, budget):
         rng = ctx.sub_rng("c16", budget)
         if budget == "quick":
-            full = product(H.APIS) + backlog_product() + reuse_product() + hardening_product()
+            full = product(H.APIS) + backlog_product() + reuse_product() + hardening_product() + status_product() + concurrent_product()
             out = [dict(c) for c in DIRECTED] + [dict(c) for c in rng.sample(full, 6)]
             out += entry_scan(8, 160)
             out += [BAD[0], BAD[4], BAD[8]]
         elif budget == "thorough":
             out = (product(H.APIS) + backlog_product(H.APIS) + reuse_product() + reuse_product(("StdioClient",), (3,))
-                   + hardening_product()
+                   + hardening_product() + status_product() + concurrent_product()
                    + entry_scan(2, 200) + entry_scan(8, 160, H.APIS[1:]) + BAD)
         else:  # search
             out = (product(["stdio_client"], nreq=1, junk=False) + backlog_product() + reuse_product(("StdioClient", "StdioTransport"))
-                   + hardening_product()
+                   + hardening_product() + status_product() + concurrent_product()
                    + entry_scan(4, 160) + BAD[:4])
         for i, c in enumerate(out):
             if "bad" not in c:
@@ -274,6 +333,10 @@ class Scenarios(Suite):
         for key in ("k", "linger", "close_after", "sessions", "api"):
             if key in case:
                 d[key] = case[key]
+        if case.get("concurrent"):
+            return {"m": "shutdown", "path": case["path"], "concurrent": case["concurrent"]}
+        if "self_exit" in case:
+            d["behaviour"], d["k"] = "exit_at", 0            # it is gone when the exit begins
         if "term_delay" in case and case["behaviour"] == "well":
             d["behaviour"] = "slow_term"
             d["term_delay_ms"] = int(case["term_delay"] * 1000)
@@ -310,7 +373,12 @@ class Scenarios(Suite):
                 return (f"bad-command-entered/{case['bad']}", f"entering the context with an unstartable command "
                         f"({case['bad']}, {case.get('api')}) did not raise", {"raised_on_enter": True})
             return None
-        what = (f"{case['behaviour']}{'/k=%d' % case['k'] if 'k' in case else ''} x {case['path']} x {case['moment']}"
+        if case.get("concurrent"):
+            names = "+".join(sp["behaviour"] + ("%d" % sp["k"] if "k" in sp else "") for sp in case["concurrent"])
+            what0 = f"{len(case['concurrent'])} clients at once [{names}] registered {case.get('order')} sent {case.get('send_order')} via {case.get('req_api')}"
+        else:
+            what0 = f"{case['behaviour']}{'/k=%d' % case['k'] if 'k' in case else ''}"
+        what = (f"{what0} x {case['path']} x {case['moment']}"
                 f"{' x %d queued messages of %d bytes' % (case['backlog'], H.BACKLOG_BYTES) if case.get('backlog') else ''}"
                 f"{' (stdout closed%s, then: %s)' % (' after %d answer(s)' % case['close_after'] if case.get('close_after') else '', case.get('linger', 'eof')) if case['behaviour'] == 'close_stdout' else ''}"
                 f" ({case.get('api')})")
@@ -364,6 +432,14 @@ class Scenarios(Suite):
         for j, r in enumerate(o["requests"], 1):
             if r["outcome"] != "returned":
                 continue
+            if "client" in r:
+                sp = case["concurrent"][r["client"]]
+                if not H.answers(dict(sp), 1) or r.get("payload") != {"echo": r["x"]}:
+                    return ("fabricated-result/concurrent", f"{what}: client {r['client']} ({sp['behaviour']}"
+                            f"{'/k=%d' % sp['k'] if 'k' in sp else ''}) got {r.get('payload')!r} for its request — its own child "
+                            f"never wrote that (request id shared with {len(case['concurrent']) - 1} other live connection(s))",
+                            {"outcome": "timeout or error"})
+                continue
             nreq = case.get("nreq", 1) if case["moment"] == "after" else 1
             wrote = r["expect"] if "expect" in r else {"echo": r["x"]}
             if r.get("held") or not H.answers(case, (j - 1) % nreq + 1) or r.get("payload") != wrote \
@@ -376,6 +452,15 @@ class Scenarios(Suite):
         if "bad" in case:
             return f"bad-command/{case['bad']}"
         b = case["behaviour"] + ("%d" % case["k"] if "k" in case else "")
+        if case.get("concurrent"):
+            b = "concurrent:" + "+".join(sp["behaviour"] + ("%d" % sp["k"] if "k" in sp else "") for sp in case["concurrent"]) \
+                + "/" + case.get("req_api", "legacy")
+        if "on_term" in case:
+            b += "+exit%d-on-term" % case["on_term"]
+        if "self_exit" in case:
+            b += "+self-exit%d" % case["self_exit"][1]
+        if "code" in case:
+            b += "+code%d" % case["code"]
         if case["moment"] == "entry":
             return f"{b}/{case['path']}/entry-{'cut' if not o['entered'] else 'body'}/{case.get('api')}"
         if case["behaviour"] == "close_stdout":
@@ -402,6 +487,18 @@ class Scenarios(Suite):
             if case["behaviour"] != "well":
                 yield dict(case, behaviour="well")
             return
+        if case.get("concurrent"):
+            if len(case["concurrent"]) > 2:
+                for drop in range(len(case["concurrent"])):
+                    keep = [i for i in range(len(case["concurrent"])) if i != drop]
+                    ren = {old: new for new, old in enumerate(keep)}
+                    yield dict(case, concurrent=[case["concurrent"][i] for i in keep],
+                               order=[ren[i] for i in case.get("order", []) if i in ren],
+                               send_order=[ren[i] for i in case.get("send_order", []) if i in ren])
+            return
+        for k in ("on_term", "self_exit", "code"):
+            if k in case:
+                yield {a: b for a, b in case.items() if a != k}
         for k in ("chatty", "falsy_result", "env", "stderr", "hostile_args", "legacy", "exc_text", "req_id", "empty_x", "backlog_bytes"):
             if k in case:
                 yield {a: b for a, b in case.items() if a != k}
@@ -460,7 +557,8 @@ class ExitTrace(Suite):
                 ("events", "timers", "io")):
             if ex and (t is not None or k is not None or se is not None):
                 continue
-            spec = {"exited": ex, "term_delay": t, "kill_delay": k, "stdout_held": held, "stdout_open": opened, "self_exit": se}
+            spec = {"exited": ex, "term_delay": t, "kill_delay": k, "stdout_held": held, "stdout_open": opened, "self_exit": se,
+                    "status": (0, 3, -15)[len(full) % 3]}      # the exit status the child ends with: success, failure, signal
             full.append({"path": p, "tie": tie, "spec": spec})
         if budget == "thorough":
             return full
